@@ -303,6 +303,7 @@ func ledgerFamily(run *core.Run, o ledgerFamilyOpts) {
 	}
 	if o.tokens {
 		runs = append(runs, tokenCheck(run, o.prop)...)
+		swapCheck(run, o.prop)
 	}
 	run.Set("lab_walks", walkStats)
 	run.Set("lab_walk_methods_accepted", methods)
